@@ -52,6 +52,10 @@ def run(model, res, tier):
     for kind in ('arith', 'logic', 'concat', 'uminus'):
         m, f = acts[kind]
         keys.append((m.name, m.qualname_of(f)))
+    for p_ in g.productions:
+        if p_.syms == ['XLERROR'] and p_.funcname in g.action_funcs:
+            m, f = g.action_funcs[p_.funcname]
+            keys.append((m.name, m.qualname_of(f)))
     region = c.cg.reachable(keys) - set(c.cg.registry_keys)
     purity.check_region(res, c, 'R5', None, region, 'an operator')
     purity.check_memo(res, c, 'R5', region, 'a function on an operator path')
@@ -143,7 +147,7 @@ def _r2(model, res, c, g, opaque):
             res.violation('R2', 'error-literal:%s' % lexeme, m.where(f),
                           'the error literal %s does not abort the formula with the canonical %s: %s' % (lexeme, want, '; '.join(H.describe(bad))),
                           func=f.name)
-    res.floor('error literals run through the literal action', n, 9)
+    res.soft_floor('error literals run through the literal action', n, 9)
 
 
 def _r3(model, res, c, g, opaque):
